@@ -138,6 +138,7 @@ func c01NegotiateFeatures(c *cx, nf *eng.Fn, call *ast.CallExpr) (firstParam str
 		c.dom("C01.1", nf, call, "call "+negPat+" [advertised]", []string{cachePat}, recvRole)
 		c.dom("C01.1", nf, call, "call "+negPat+" [not yet negotiated]", []string{"!commaok(*.negotiated[" + key + "])"}, recvRole)
 		c.dom("C01.1", nf, call, "call "+negPat+" [negotiable]", []string{"!eq(*.cache[" + key + "].feature.Negotiate,nil)"}, recvRole)
+		c.dom("C01.1", nf, call, "call "+negPat+" [prerequisites hold now]", []string{"all(*.state,*.cache[" + key + "].feature.Necessary)", "none(*.state,*.cache[" + key + "].feature.Prohibited)"}, recvRole)
 		// refusal edges: siblings of the edges that establish the three facts
 		nref := 0
 		for _, pat := range []string{cachePat, "!commaok(*.negotiated[" + key + "])", "!eq(*.cache[" + key + "].feature.Negotiate,nil)"} {
@@ -230,6 +231,12 @@ func c01NegotiateFeatures(c *cx, nf *eng.Fn, call *ast.CallExpr) (firstParam str
 				c.dom("C01.2", nf, d.Node, "initiator selection", []string{
 					"!commaok(*.negotiated[rangeval(*.cache).feature.Name.Space])",
 					"!eq(rangeval(*.cache).feature.Negotiate,nil)"}, initRole)
+				// ... and only while the CURRENT state satisfies its prerequisites
+				// (a feature negotiated earlier from the same list may have
+				// changed the state since the list was read)
+				c.dom("C01.2", nf, d.Node, "initiator selection [prerequisites hold now]", []string{
+					"all(*.state,rangeval(*.cache).feature.Necessary)",
+					"none(*.state,rangeval(*.cache).feature.Prohibited)"}, initRole)
 			} else {
 				c.r.Check("C01.2", nf, "initiator selection source", "selection is a cache entry or the forced STARTTLS literal", d.Node.Pos(), false, "unexpected definition of the selected feature: "+c.p.NodeStr(d.Node))
 			}
@@ -423,6 +430,14 @@ func c01NegotiateFeatures(c *cx, nf *eng.Fn, call *ast.CallExpr) (firstParam str
 				okAny = true
 			}
 		}
+		// a mask that gains Ready AFTER a feature was negotiated (not one of the
+		// `return Ready, nil, nil` exits) is returned together with rw: no
+		// restart may be pending, the features of the restarted stream have not
+		// been seen yet
+		if as, isAssign := st.(*ast.AssignStmt); isAssign && as.Tok == token.OR_ASSIGN {
+			okr, whyr := g.DominatedAny(pt, []string{"eq(local:*<io.ReadWriter>,nil)", "eq(r1,nil)", "eq(*Negotiate*#1,nil)"})
+			c.r.Check("C01.9", nf, "Ready only without a pending restart: "+c.p.NodeStr(st), "G: Ready is not reported together with a new stream layer (the restarted stream's features, possibly mandatory ones, have not been read)", e.Pos(), okr, whyr)
+		}
 		c.r.Check("C01.9", nf, "Ready produced: "+c.p.NodeStr(st), "G: the Ready bit is produced only under one of the licences (empty list and no forced STARTTLS; no candidate left; no mandatory feature advertised)", e.Pos(), okAny, "not dominated by any licence of "+strings.Join(tried, " or "))
 		return false
 	})
@@ -581,6 +596,19 @@ func c01Session(c *cx) {
 		}
 		c.r.Check("C01.7", f, "s.state |= mask [operand]", "P: the bits added are the mask returned by the negotiator", w.Stmt.Pos(), okMask, "operand is not the negotiator's mask result")
 
+		// C01.12 (complement): the reset is skipped only when NO new stream layer
+		// was returned: every path from the negotiator call to this write either
+		// crosses an edge that establishes rw == nil or passes the reset (a test
+		// such as `rw != nil && rw != s.conn` lets a restart on the same
+		// connection keep the negotiated set)
+		{
+			nilCut := eng.Cut{}
+			for _, ce := range g.EdgesMatching(strings.TrimPrefix(rwSet, "!")) {
+				nilCut[ce.E] = true
+			}
+			clr := rangeDelete(f, "xmpp.Session.negotiated")
+			c.r.Check("C01.12", f, "restart: reset skipped only without a new stream layer", "O: between the negotiator call and the next step the negotiated set is cleared unless rw == nil was established", negCall.Pos(), !g.Reachable(g.After(ncPt), pt, nilCut, clr), "a path on which rw may be non-nil reaches the next step without clearing Session.negotiated")
+		}
 		// C01.12: every path from rw != nil to this write resets the per-stream state
 		for _, ce := range g.EdgesMatching(rwSet) {
 			if !g.Reachable(g.After(ncPt), eng.Point{B: ce.E.B, I: 0}, nil, nil) {
